@@ -307,7 +307,7 @@ func (t *Template) parseTemplate(cacheAfterParsing bool) (next Node) {
 
 	for t.peek().typ != itemEOF {
 		switch n := t.textOrAction(); n.Type() {
-		case nodeEnd, nodeElse, nodeContent:
+		case nodeEnd, nodeElse, nodeContent, nodeCatch:
 			t.errorf("unexpected %s", n)
 		default:
 			t.Root.append(n)
@@ -507,6 +507,12 @@ func (t *Template) itemList(terminatedBy ...NodeType) (list *ListNode, next Node
 			if n.Type() == terminatorType {
 				return list, n
 			}
+		}
+		switch n.Type() {
+		case nodeEnd, nodeElse, nodeContent, nodeCatch:
+			// a control action that does not belong to the construct being parsed;
+			// it must not end up in the tree (it would be silently ignored)
+			t.errorf("unexpected %s", n)
 		}
 		list.append(n)
 	}
